@@ -1,10 +1,100 @@
-/- Line-protocol driver for C14 (stub until the property's models exist). -/
+/-
+  Line-protocol driver for C14 (thread interleavings).
+
+    ping
+    mon <wire-ev>* | <res>*
+        the Spec monitor on a chronological wire log and per-call results
+        -> ok | bad X=<0|1> S=<0|1> O=<0|1>
+    run <xl> <nextSeq> <sessSeq> <calls:cmd>,<calls:cmd>,… | <tid:act>*
+        trace validation: replay a logged access sequence in the Model
+        -> ok wire <wire-ev>* res <res>* mon <0|1> done <0|1>
+         | reject <index> expected <act|none>
+
+  wire-ev ::= T:tid:serial:seq:rq:cmd | R:tid:serial
+  res     ::= tid:sent:got            (got = "-" when the call failed)
+  act     ::= ldNS:v | stNS:v | acq | rel | ldSS:v | stSS:v | tx:serial:seq:rq:cmd | rx:serial
+            | rxTimeout | qget:serial | qput:serial
+-/
 import PyIpmi.Base.Proto
-open PyIpmi.Proto
+import PyIpmi.Model.Threads
+open PyIpmi.Proto PyIpmi.Threads PyIpmi.Spec.Threads
+
+def parseWEv (s : String) : Option WEv :=
+  match s.splitOn ":" with
+  | ["T", a, b, c, d, e] => do pure (.tx (← a.toNat?) (← b.toNat?) (← c.toNat?) (← d.toNat?) (← e.toNat?))
+  | ["R", a, b] => do pure (.rx (← a.toNat?) (← b.toNat?))
+  | _ => none
+
+def showWEv : WEv → String
+  | .tx a b c d e => s!"T:{a}:{b}:{c}:{d}:{e}"
+  | .rx a b => s!"R:{a}:{b}"
+
+def parseRes (s : String) : Option Res :=
+  match s.splitOn ":" with
+  | [a, b, c] => do
+    let g ← if c == "-" then some none else c.toNat?.map some
+    pure ⟨← a.toNat?, ← b.toNat?, g⟩
+  | _ => none
+
+def showRes (r : Res) : String :=
+  s!"{r.tid}:{r.sent}:" ++ (match r.got with | some g => toString g | none => "-")
+
+def showAct : Act → String
+  | .ldNS v => s!"ldNS:{v}" | .stNS v => s!"stNS:{v}" | .acq => "acq" | .rel => "rel"
+  | .ldSS v => s!"ldSS:{v}" | .stSS v => s!"stSS:{v}"
+  | .tx a b c d => s!"tx:{a}:{b}:{c}:{d}" | .rx a => s!"rx:{a}" | .rxTimeout => "rxTimeout"
+  | .qget a => s!"qget:{a}" | .qput a => s!"qput:{a}" | .tau => "tau"
+
+def parseTAct (s : String) : Option (Nat × Act) :=
+  match s.splitOn ":" with
+  | [t, "ldNS", v] => do pure (← t.toNat?, .ldNS (← v.toNat?))
+  | [t, "stNS", v] => do pure (← t.toNat?, .stNS (← v.toNat?))
+  | [t, "acq"] => do pure (← t.toNat?, .acq)
+  | [t, "rel"] => do pure (← t.toNat?, .rel)
+  | [t, "ldSS", v] => do pure (← t.toNat?, .ldSS (← v.toNat?))
+  | [t, "stSS", v] => do pure (← t.toNat?, .stSS (← v.toNat?))
+  | [t, "tx", a, b, c, d] => do pure (← t.toNat?, .tx (← a.toNat?) (← b.toNat?) (← c.toNat?) (← d.toNat?))
+  | [t, "rx", a] => do pure (← t.toNat?, .rx (← a.toNat?))
+  | [t, "rxTimeout"] => do pure (← t.toNat?, .rxTimeout)
+  | [t, "qget", a] => do pure (← t.toNat?, .qget (← a.toNat?))
+  | [t, "qput", a] => do pure (← t.toNat?, .qput (← a.toNat?))
+  | _ => none
+
+def parseThreads (s : String) : Option (List (Nat × Nat)) :=
+  if s == "-" then some [] else
+  (s.splitOn ",").mapM fun p =>
+    match p.splitOn ":" with
+    | [a, b] => do pure (← a.toNat?, ← b.toNat?)
+    | _ => none
+
+def splitBar (l : List String) : List String × List String :=
+  (l.takeWhile (· ≠ "|"), (l.dropWhile (· ≠ "|")).drop 1)
+
+def b01 (b : Bool) : String := if b then "1" else "0"
 
 def handleC14 (line : String) : String :=
   match tokens line with
   | ["ping"] => "pong"
+  | "mon" :: rest =>
+    let (w, r) := splitBar rest
+    match w.mapM parseWEv, r.mapM parseRes with
+    | some wire, some rs =>
+      if accepts wire rs then "ok"
+      else s!"bad X={b01 (exchangesOk wire)} S={b01 (seqIncreasing wire)} O={b01 (ownReply wire rs)}"
+    | _, _ => "bad-op"
+  | "run" :: xl :: ns :: ss :: thr :: rest =>
+    let (_, tr) := splitBar rest
+    match xl.toNat?, ns.toNat?, ss.toNat?, parseThreads thr, tr.mapM parseTAct with
+    | some xl, some ns, some ss, some thr, some tr =>
+      match replay (init ⟨ns, ss, xl, thr⟩) tr with
+      | .ok s =>
+        let done := s.thr.all fun th => th.pc == .done
+        "ok wire " ++ " ".intercalate (s.wireChron.map showWEv) ++ " res " ++
+          " ".intercalate (s.results.map showRes) ++
+          s!" mon {b01 (accepts s.wireChron s.results)} done {b01 done}"
+      | .error (i, l) =>
+        s!"reject {i} expected " ++ (match l with | some a => showAct a | none => "none")
+    | _, _, _, _, _ => "bad-op"
   | _ => "bad-op"
 
 def main : IO Unit := do
